@@ -30,6 +30,50 @@ CHECKS = {
         "excluded (C02). Nothing is claimed beyond the deviation bound or for scripts outside the menu/closure.",
         "DESIGN.md §4 C01",
     ),
+    "C09": (
+        "model_checking",
+        "stateless deviation-bounded DFS over two real endpoints (NetSim) with a timer/termination monitor",
+        "close() is inserted at every position of two base scripts on either endpoint (before the first "
+        "flight is answered, mid-handshake, with data outstanding), plus simultaneous closes and idle "
+        "periods; every schedule with at most d deviations (drop, duplicate, delay, late timers) runs to "
+        "termination of both endpoints, the harness honouring get_timer() also after termination. After "
+        "every API call the monitor requires a finite deadline while alive, a closing deadline within 3 PTO "
+        "of the start of closing, termination when that timer fires, exactly one ConnectionTerminated, only "
+        "CONNECTION_CLOSE packets in at most one batch, and silence afterwards. These are safety/liveness "
+        "claims over schedules; exhaustive bounded-deviation search is what covers them.",
+        "d<=1 on all scenarios, d<=2 on a rotating subset (quick) / all v1 scenarios (thorough). Fatal "
+        "protocol errors and peer closes in each packet-number space are reached by the PeerBot checks, not "
+        "here. PTO at closing start is read from the recovery object.",
+        "DESIGN.md §4 C09",
+    ),
+    "C12": (
+        "model_checking",
+        "stateless deviation-bounded DFS over two real endpoints (NetSim) with a wire-level ACK monitor",
+        "Every ACK frame found on the independently decrypted wire is compared with the simulator's record "
+        "of genuine packets delivered to that endpoint in that packet-number space (soundness); every "
+        "ack-eliciting 1-RTT packet carrying a new largest number must be covered by an ACK-bearing packet "
+        "leaving within the advertised 25 ms when the harness fired that endpoint's timers punctually, and "
+        "Initial/Handshake ones by the next transmission in the space. All schedules with <= d deviations "
+        "(loss of data, of ACKs and of ACK-of-ACK carriers, duplicates, reordering via delay, late timers), "
+        "pacing left enabled (the test-suite disables it).",
+        "d<=1 on 7 scripts x 1-2 configs, d<=2 on small scripts, d<=3 on two (thorough). Packets that were "
+        "delivered but could not be decrypted by the endpoint count as delivered (sound direction only).",
+        "DESIGN.md §4 C12",
+    ),
+    "C13": (
+        "model_checking",
+        "stateless deviation-bounded DFS over two real endpoints (NetSim) with a size/amplification monitor",
+        "Every datagram handed out by datagrams_to_send() in every explored schedule is measured: <= the "
+        "sender's max_datagram_size; >= 1200 bytes when it carries a client Initial or an ack-eliciting "
+        "server Initial (packet types/frames from the independent refquic decryption); per server and "
+        "remote address, bytes sent <= 3 x bytes received until a Handshake packet or a PATH_RESPONSE "
+        "echoing a challenge from that address has been delivered. Scenarios: max_datagram_size pairs x "
+        "certificate chains (1-3 certs, padded RSA) x handshake/echo/early bulk/server close/migration, "
+        "with drop, duplicate, delay, client rebinding, spoofed-source replay and late timers.",
+        "d<=1 everywhere, d<=2 on a subset; mds grid {1200,1201,1250,1350,1472,1500}^2 complete in thorough, a "
+        "seed-selected ninth in quick. One known finding (unpadded server Initial when budget-limited).",
+        "DESIGN.md §4 C13",
+    ),
     "C10": (
         "model_checking",
         "explicit-state BFS to closure over the real stream/RangeSet objects vs reference model",
